@@ -287,6 +287,22 @@ def stress_inputs() -> List[Tuple[str, Dict[str, bytes], str]]:
     add("import-directory", 'proto s\nimport "."\n')
     add("import-missing", 'proto s\nimport "nope.bitproto"\n')
     add("import-dev-null", 'proto s\nimport "/dev/null"\n')
+    # arithmetic on huge constants (a quotient beyond the range of a float must not go through one)
+    add("huge-quotient-decimal", "proto s\nconst A = " + "9" * 400 + " / 3\n")
+    add("huge-quotient-hex", "proto s\nconst A = 0x" + "f" * 300 + " / 2\n")
+    add("huge-product-quotient", "proto s\nconst B = " + "7" * 200 + "\nconst A = B * B / 5\n")
+    add("huge-minus", "proto s\nconst A = 1 - " + "9" * 400 + "\n")
+    # a message that refers to itself / to a message that is still open
+    add("self-reference", "proto s\nmessage Node {\n    uint8 value = 1\n    Node next = 2\n}\n")
+    add("self-reference-array", "proto s\nmessage Tree {\n    Tree[2] children = 1\n}\n")
+    add("reference-to-open-outer", "proto s\nmessage A {\n    message B {\n        A back = 1\n    }\n    B b = 1\n}\n")
+    add("dotted-reference-into-open", "proto s\nmessage A {\n    message B {\n        A.B again = 1\n    }\n}\n")
+    add("enum-self-reference", "proto s\nmessage M {\n    enum E : uint3 {\n        E_A = 0\n    }\n    E e = 1\n    M.E f = 2\n}\n")
+    # characters Python calls white space but the lexer does not ignore, as the LAST thing in the file
+    for name, ch in (("form-feed", "\x0c"), ("vertical-tab", "\x0b"), ("file-separator", "\x1c"), ("unit-separator", "\x1f"),
+                     ("nbsp", "\u00a0"), ("line-separator", "\u2028"), ("nel", "\x85")):
+        add(f"trailing-{name}", "proto s\nmessage M { }\n" + ch)
+        add(f"trailing-{name}-then-blanks", "proto s\nmessage M { }\n" + ch + "  \n\n")
     add("import-nul-path", 'proto s\nimport "l\x00b.bitproto"\n')
     add("import-very-long-path", 'proto s\nimport "' + "a" * 5000 + '.bitproto"\n')
     out.append(("latin1-bytes", {"s.bitproto": b"proto s\nconst S = \"\xe9\xff\"\n"}, "s.bitproto"))
